@@ -1289,6 +1289,37 @@ fn scenario_evict_witness(work: &str, out: &mut Out, total: &mut BTreeMap<String
 	}
 }
 
+/// second eviction witness (found with the model): a low-fee child gets its own bucket but
+/// registers its outputs under its parent's bucket, the high-fee grandchild is aggregated into the
+/// parent's bucket, and the child - on which the grandchild depends - is evicted.
+fn scenario_evict_chain(work: &str, out: &mut Out, total: &mut BTreeMap<String, u64>) {
+	let mut rng = Rng::new(81);
+	let mut w = World::new(work, "evict-single-parent-chain", Cfg { max_pool: 50, max_stem: 50, mine_w: 250 });
+	print_cfg(&w, out);
+	warm_up(&mut w, out, &mut rng, 6);
+	w.print_head(out);
+	let free = w.free_utxo();
+	if free.is_empty() {
+		return;
+	}
+	let w11 = World::weight_of(1, 1);
+	let a = w.spend(&[free[0]], 1, w11 * FEE_BASE * 20, None).unwrap();
+	let oa = w.tx_outs(&a)[0];
+	let b = w.spend(&[oa], 1, w11 * FEE_BASE, None).unwrap();
+	let ob = w.tx_outs(&b)[0];
+	let c = w.spend(&[ob], 1, w11 * FEE_BASE * 40, None).unwrap();
+	let ta = w.add_tx(out, a, vec![], "chain-parent-A");
+	let tb = w.add_tx(out, b, vec![], "chain-child-B-low-fee");
+	let tc = w.add_tx(out, c, vec![], "chain-grandchild-C");
+	w.submit(out, ta, TxSource::Broadcast, false, true);
+	w.submit(out, tb, TxSource::Broadcast, false, true);
+	w.submit(out, tc, TxSource::Broadcast, false, true);
+	w.evict(out);
+	for (k, v) in &w.stats {
+		*total.entry(k.clone()).or_insert(0) += v;
+	}
+}
+
 /// `is_acceptable` returns OverCapacity before looking at the fee; `add_to_pool` treats that as
 /// "admit, then evict": is a low-fee transaction admitted when the pool is over capacity?
 fn scenario_low_fee_at_capacity(work: &str, out: &mut Out, total: &mut BTreeMap<String, u64>) {
@@ -1487,6 +1518,7 @@ fn main() {
 	));
 	if mode == "all" || mode == "scenarios" {
 		scenario_evict_witness(&work, &mut out, &mut total);
+		scenario_evict_chain(&work, &mut out, &mut total);
 		scenario_low_fee_at_capacity(&work, &mut out, &mut total);
 		scenario_full_aggregate(&work, &mut out, &mut total);
 		scenario_reorg_lower(&work, &mut out, &mut total);
